@@ -347,6 +347,11 @@ func init() {
 			c.EntryAlignment("C09", s, "att")
 			c.RulerFastPath("C09")
 			c.RulerKeyAgreement("C09")
+			if sl := c.Slashing("C09.anchors"); sl.OK() {
+				// a refused request leaves the watermark where it was
+				c.StateStoreDiscipline("C09", sl, "att")
+				c.StateStoreDiscipline("C09", sl, "prop")
+			}
 			c.SignerRefusalReasons("C09")
 			c.ScatterPartition("C09")
 			c.RulerPositions("C09")
@@ -381,6 +386,8 @@ func init() {
 			c.BadgerBufferDiscipline("C11")
 			c.RulerKeyAgreement("C14")
 			c.ForkJoinRules("C03")
+			c.StateStoreDiscipline("C14", s, "att")
+			c.StateStoreDiscipline("C14", s, "prop")
 			c.RulerPositions("C14")
 		},
 		Explanation: "A composition property: with t > n/2 any two sets of t instances intersect; the shared instance refuses one of two conflicting duties by C01/C02 (its watermark is keyed by its own share's public key), under any interleaving by C04. Decided structurally: the threshold bound exists on every path that starts a generation and is the threshold stored with the account (C12 O1/O3), plus the C01, C02 and C04 obligation groups re-evaluated. The counting lemma is mathematics (prose). See DESIGN.md §5 C14.",
